@@ -80,6 +80,15 @@ class Zoo:
         self.n_in = 3
         self.finish(layer, STDP(0.05, -0.03, 4.0, 3.0, delayed=True), [layer.cell])
 
+    def build_dense_delta_lif_inthp_stdp(self):
+        """voltage hyper-parameters written as whole Python ints (as the repository's own examples do): buffers must still be float"""
+        conn = LinearDense((3,), (2,), DT, synapse=DeltaCurrent.partialconstructor(40.0, inplace=self.inplace), delay=2.0, batch_size=1,
+                           weight_init=lambda w: torch.tensor([[1.0, 2.0, 0.5], [0.5, 1.0, 2.0]]), delay_init=lambda d: torch.tensor([[0.0, 1.0, 2.0], [2.0, 1.0, 0.0]]))
+        from inferno.neural import LIF
+        layer = Serial(conn, LIF((2,), DT, rest_v=-60, reset_v=-65, thresh_v=-45, refrac_t=2, time_constant=20, resistance=1, batch_size=1))
+        self.n_in = 3
+        self.finish(layer, STDP(0.05, -0.03, 4.0, 3.0, delayed=True), [layer.cell])
+
     def build_direct_delta_alif_triplet(self):
         conn = LinearDirect((2,), DT, synapse=DeltaCurrent.partialconstructor(3.0, inplace=self.inplace), delay=2.0, batch_size=1,
                             weight_init=lambda w: torch.tensor([1.5, 1.0]), delay_init=lambda d: torch.tensor([1.0, 2.0]))
@@ -162,6 +171,9 @@ class Zoo:
         h.ca = CAReducer(DT, duration=4.0, inplace=self.inplace)
         h.ev = EventReducer(DT, lambda x: x > 0.5, "inf", duration=3.0, inplace=self.inplace)
         h.ps = PassthroughReducer(DT, duration=0.0, inplace=self.inplace)
+        # several single-slot records fed the very same tensor object: each must hold its own copy
+        h.ema0 = EMAReducer(DT, 0.5, duration=0.0, inplace=self.inplace)
+        h.ca0 = CAReducer(DT, duration=0.0, inplace=self.inplace)
         self.holder = h
         self.n_in = 3
         self.layer, self.trainer = None, None
@@ -246,7 +258,7 @@ class Zoo:
 
 
 ZOO_EXTRA = ("dense_delta_qif_dastdpd", "direct_exp_glif2_mstdp", "dense_dexp_eif_dakernel")
-ZOO = ("dense_exp_lif_stdp", "direct_delta_alif_triplet", "lateral_dexp_adex_mstdpet", "conv_deltaplus_izh_kernel", "biclique_homeostasis",
+ZOO = ("dense_exp_lif_stdp", "dense_delta_lif_inthp_stdp", "direct_delta_alif_triplet", "lateral_dexp_adex_mstdpet", "conv_deltaplus_izh_kernel", "biclique_homeostasis",
        "recurrent_dastdp", "reducers", "classifier")
 
 
